@@ -94,7 +94,7 @@ def run_resolve_case(ctx, suite, case, oracle=None, compare=True):
         # (re-keyed templates only where the oracle does not speak in the reader's template keys / atom names)
         case['ctor'] = 'graph' if r in (0, 1) else 'fragment-dicts' if r in (2, 3) else \
             'reordered' if (r == 4 and ctx.prop in ('C02', 'C12')) else \
-            'graph-reinserted' if (r in (5, 6) and ctx.prop == 'C12') else 'string'
+            'graph-reinserted' if (r in (5, 6) and ctx.prop in ('C12', 'C03', 'C02')) else 'string'
     ctx.feature('constructor:' + case.get('ctor', 'string'))
     try:
         try:
@@ -123,6 +123,16 @@ def run_resolve_case(ctx, suite, case, oracle=None, compare=True):
     if compare and not ctx.oracle_only:
         for st in steps:
             compare_step(ctx, suite, case, st)
+    if case.get('caller_names') and steps and steps[0]['result'] == 'ok':
+        # the base graph was handed over as a graph object: the coarse graph of the first step is THAT graph — the same
+        # keys under the same names, whatever order its nodes were put in (bonds, memberships and names of the result are
+        # read against the caller's graph)
+        got = {str(k): d.get('fragname') for k, d in steps[0]['meta_graph'].nodes(data=True)}
+        if got != case['caller_names']:
+            diff = sorted(k for k in set(got) | set(case['caller_names']) if got.get(k) != case['caller_names'].get(k))
+            ctx.fail(slim(case), f'from_graph: the coarse graph of the result is not the graph that was handed over '
+                                 f'(nodes {diff[:5]}: {[got.get(k) for k in diff[:5]]} instead of '
+                                 f'{[case["caller_names"].get(k) for k in diff[:5]]})')
     if oracle:
         oracle(ctx, case, steps, None)
     return steps
